@@ -86,6 +86,7 @@ pub fn run_c04(ctx: &Ctx) -> i32 {
     }
     fuzz_stage(ctx, Mode::Load, &mut total, &mut extra);
     miri_stage(ctx, &mut total, &mut extra);
+    miri32_stage(ctx, &mut total, &mut extra);
     total.samples.push(json!({"example_input": "generated base gen0, field f0.c3:cel.layer (index) 0 -> 65535", "isolation": "worker process, 2 MiB case thread, RLIMIT_AS 12 GiB, catch_unwind + panic hook, death attributed to last B line"}));
     finish(
         &Ctx { level: "fault_enumeration", ..ctx.clone() },
@@ -342,6 +343,49 @@ fn fuzz_stage(ctx: &Ctx, mode: Mode, total: &mut Summary, extra: &mut serde_json
 }
 
 /// Thorough tier: the driver runs `c04_miri` shards over a sample of hostile inputs and points us at the logs.
+/// The 32-bit pass (driver: `harness32` under Miri with --target i686): every input's outcome is a line of the log.
+fn miri32_stage(_ctx: &Ctx, total: &mut Summary, extra: &mut serde_json::Map<String, serde_json::Value>) {
+    let path = match std::env::var("ASEMON_MIRI32_LOG") {
+        Ok(p) => p,
+        Err(_) => return,
+    };
+    let text = std::fs::read_to_string(&path).unwrap_or_default();
+    let done = text.lines().find(|l| l.starts_with("asemon32 done"));
+    let field = |l: &str, k: &str| -> u64 { l.split_whitespace().find_map(|w| w.strip_prefix(k).and_then(|v| v.parse().ok())).unwrap_or(0) };
+    let mut k = 0u64;
+    for l in text.lines().filter(|l| l.starts_with("asemon32 PANIC ")) {
+        // "asemon32 PANIC <file> : <message> at <location>"
+        let rest = &l["asemon32 PANIC ".len()..];
+        let (file, msg) = rest.split_once(" : ").unwrap_or((rest, ""));
+        let loc = msg.rsplit_once(" at ").map(|x| x.1).unwrap_or("");
+        let repo_file = loc.rsplit_once("/src/").map(|x| format!("src/{}", x.1.split(':').next().unwrap_or(""))).unwrap_or_default();
+        let what = msg.rsplit_once(" at ").map(|x| x.0).unwrap_or(msg);
+        let mut cr = CaseResult::default();
+        cr.nontrivial = true;
+        cr.feature = crate::rng::hash_str(file) | 1;
+        cr.violations.push(Violation::new(format!("load-panic-32bit|{}|{}", repo_file, normalise_digits(what)), format!("on a 32-bit target (i686, Miri) AsepriteFile::read panicked: {} - input {}", msg, file)).with_extra(json!({"target": "i686-unknown-linux-gnu", "input": file})));
+        total.absorb(5_000_000 + k, cr);
+        k += 1;
+    }
+    if text.contains("Undefined Behavior") {
+        let first = text.lines().find(|l| l.contains("Undefined Behavior")).unwrap_or("").trim().to_string();
+        let mut cr = CaseResult::default();
+        cr.violations.push(Violation::new(format!("miri32|undefined-behaviour|{}", normalise_digits(&first)), format!("Miri (i686) reported while loading: {}", first)));
+        total.absorb(5_100_000, cr);
+    } else if done.is_none() {
+        total.inconclusive.push(format!("the 32-bit Miri pass did not complete: {}", text.lines().rev().find(|l| !l.trim().is_empty()).unwrap_or("(no output)")));
+    }
+    if let Some(d) = done {
+        let (inputs, loaded, rejected) = (field(d, "inputs="), field(d, "loaded="), field(d, "rejected="));
+        extra.insert("miri_32bit_pass".into(), json!({"target": "i686-unknown-linux-gnu", "pointer_width": field(d, "pointer_width="), "inputs": inputs, "loaded": loaded, "rejected": rejected, "panics": field(d, "panics=")}));
+        total.counters.insert("miri32_inputs".into(), inputs);
+        total.counters.insert("miri32_loaded".into(), loaded);
+        total.counters.insert("miri32_rejected".into(), rejected);
+        total.evaluations += inputs.saturating_sub(k);
+        total.leaves += inputs;
+    }
+}
+
 fn miri_stage(_ctx: &Ctx, total: &mut Summary, extra: &mut serde_json::Map<String, serde_json::Value>) {
     let dir = match std::env::var("ASEMON_MIRI_LOGS") {
         Ok(d) => std::path::PathBuf::from(d),
@@ -395,6 +439,70 @@ pub fn gen_hostile_sample(ctx: &Ctx, args: &[String]) -> i32 {
         }
     }
     println!("wrote {} hostile inputs to {}", n, dir.display());
+    0
+}
+
+/// Inputs for the 32-bit pass (`harness32`, Miri on i686): small sprites whose cels / tilemaps / tilesets DECLARE
+/// sizes whose byte or pixel products reach or exceed 2^32 (and 2^31), with tiny payloads, in all pixel formats and
+/// storages - plus a few generated well-formed files so that the pass also sees accepted input.
+pub fn gen_decl32_sample(ctx: &Ctx, args: &[String]) -> i32 {
+    use crate::model::*;
+    let dir = std::path::PathBuf::from(args.first().cloned().unwrap_or_else(|| "decl32-sample".into()));
+    let _ = std::fs::create_dir_all(&dir);
+    let mut rng = crate::rng::Rng::derive(ctx.seed, "decl32", 0);
+    let mut n = 0;
+    let dims: [(u16, u16); 7] = [(32_768, 32_768), (65_535, 65_535), (16_384, 65_535), (46_341, 46_341), (65_535, 32_769), (23_171, 23_171), (1, 65_535)];
+    for fmt in [Fmt::Rgba, Fmt::Gray, Fmt::Indexed] {
+        for (k, (w, h)) in dims.iter().enumerate() {
+            for kind in 0..4 {
+                let mut sp = Sprite::blank(2, 2, fmt, 1);
+                if fmt == Fmt::Indexed {
+                    let mut pal = std::collections::BTreeMap::new();
+                    pal.insert(0u32, PalEntryM { rgba: [0, 0, 0, 0], name: None });
+                    pal.insert(1u32, PalEntryM { rgba: [9, 9, 9, 255], name: None });
+                    sp.palette = Some(pal);
+                }
+                sp.tilesets.push(TilesetM { id: 0, flags: TS_EMBED | TS_ZERO_EMPTY, count: 2, tw: 1, th: 1, base_index: 1, name: "t".into(), ext: None, pixels: vec![0; 2 * fmt.bpp()] });
+                sp.layers.push(LayerM::image("img"));
+                let mut tl = LayerM::image("tm");
+                tl.kind = LayerKind::Tilemap(0);
+                sp.layers.push(tl);
+                sp.cels.insert((0, 0), CelM { x: 0, y: 0, opacity: 255, content: CelContentM::Image { w: 1, h: 1, pixels: vec![0; fmt.bpp()] }, ud: None });
+                sp.cels.insert((0, 1), CelM { x: 0, y: 0, opacity: 255, content: CelContentM::Tilemap { w: 1, h: 1, tiles: vec![1], masks: [0x1fff_ffff, 0x2000_0000, 0x4000_0000, 0x8000_0000] }, ud: None });
+                let mut v = crate::program::Variation::none();
+                v.default_storage = if kind == 0 { Storage::Raw } else { Storage::Zlib(6) };
+                let (mut bytes, map) = crate::encode::encode(&crate::program::compile(&sp, &mut rng, &v));
+                // patch the declared dimensions (the payload stays one pixel / one tile)
+                let target = match kind {
+                    0 | 1 => ("c", ":cel.w", ":cel.h", 0usize), // first cel chunk = image cel
+                    2 => ("c", ":cel.w", ":cel.h", 1),           // second cel chunk = tilemap cel
+                    _ => ("t", ":tileset.tw", ":tileset.th", 0),
+                };
+                let ws: Vec<_> = map.fields.iter().filter(|f| f.name.ends_with(target.1)).collect();
+                let hs: Vec<_> = map.fields.iter().filter(|f| f.name.ends_with(target.2)).collect();
+                if let (Some(fw), Some(fh)) = (ws.get(target.3), hs.get(target.3)) {
+                    bytes[fw.off..fw.off + 2].copy_from_slice(&w.to_le_bytes());
+                    bytes[fh.off..fh.off + 2].copy_from_slice(&h.to_le_bytes());
+                    if kind == 3 {
+                        // tileset: also a tile count that pushes count*w*h*bpp over 2^32
+                        if let Some(fc) = map.fields.iter().find(|f| f.name.ends_with(":tileset.count")) {
+                            bytes[fc.off..fc.off + 4].copy_from_slice(&[3u32, 65_537, 0x0100_0001][k % 3].to_le_bytes());
+                        }
+                    }
+                    let _ = std::fs::write(dir.join(format!("decl-{}-{}-{}x{}.ase", fmt.name(), ["rawcel", "zlibcel", "tilemap", "tileset"][kind], w, h)), &bytes);
+                    n += 1;
+                }
+            }
+        }
+    }
+    for b in 0..6u64 {
+        let base = crate::hostile::generated_base(ctx.seed, b);
+        if base.bytes.len() <= 4096 {
+            let _ = std::fs::write(dir.join(format!("wellformed-gen{}.ase", b)), &base.bytes);
+            n += 1;
+        }
+    }
+    println!("wrote {} inputs for the 32-bit pass to {}", n, dir.display());
     0
 }
 
